@@ -640,3 +640,100 @@ def run_real_chain(db, prog, scope_vals):
             row = real_row(item)
             out.append(((i,) + row) if ordered else row)
         return out
+
+
+# ---------------------------------------------------------------------------------------------------------------------
+# bulk delete (C24): the DELETE statement removes exactly the rows the query selects
+def decide_delete(db, S, prog, dialect, timeout_ms=10000, exclude_regions=()):
+    from pony.orm import db_session
+    t0 = time.time()
+    try:
+        with db_session:
+            q = build_query(db, prog)
+            translator = q._translator
+            sql_ast = translator.construct_delete_sql_ast()
+            builder = db.provider.sqlbuilder_cls(db.provider, sql_ast)
+            sql = builder.sql
+            params = [x for x in builder.result if hasattr(x, 'paramkey')]
+            qvars = dict(q._vars)
+            ent = translator.expr_type.__name__
+        paramstyle = db.provider.paramstyle
+        tree = sqlparse.parse(sql, dialect, paramstyle)
+        if tree[0] != 'delete': raise Unmodelled('not a DELETE statement: %s' % sql)
+        scope_syms, cons = sym_scope(prog.scope)
+        penv = pysem.PEnv(S, scope_syms, dialect)
+        class _Q: pass
+        qq = _Q(); qq._vars = qvars
+        pvals, pcons = param_values(params, translator, qq, penv, paramstyle)
+        ctx = sqlsem.Ctx(S.tables, pvals, dialect)
+        d = tree[1]
+        srcs = d['from']
+        if d.get('alias') is not None: target_alias = d['alias']
+        else: target_alias = srcs[0]['alias']
+        combos = sqlsem.base_rows({'from': srcs, 'where': d['where']}, sqlsem.Env(ctx))
+        info = S.ents[ent]
+        table_rows = S.tables[info.table]
+        deleted = {id(r): [] for r in table_rows}
+        for g, e in combos:
+            r = sqlsem._ci_get(e.rows, target_alias)
+            if r is None or id(r) not in deleted: raise Unmodelled('DELETE target row not identified')
+            deleted[id(r)].append(g)
+        src_tree = ast.parse(prog.src, mode='eval').body
+        prows = pysem.eval_query(src_tree, penv)
+        selected = {id(r): [] for r in table_rows}
+        for g, vals in prows:
+            if not (len(vals) == 1 and isinstance(vals[0], pysem.ERef) and vals[0].row is not None and id(vals[0].row) in selected):
+                raise Unmodelled('delete query does not yield rows of one entity')
+            selected[id(vals[0].row)].append(g)
+    except Unmodelled as e:
+        return dict(verdict='unmodelled', detail=str(e), time_s=time.time() - t0)
+    except sqlparse.SQLSyntaxError as e:
+        return dict(verdict='unmodelled', detail='SQL text not parsed: %s' % e, time_s=time.time() - t0)
+    except Exception as e:
+        if type(e).__name__ in REJECT:
+            return dict(verdict='rejected', detail='%s: %s' % (type(e).__name__, str(e)[:120]), time_s=time.time() - t0)
+        raise
+    s = z3.Solver(); s.set('timeout', timeout_ms)
+    s.add(*S.constraints); s.add(*cons); s.add(*pcons)
+    if penv._undefined: s.add(z3.Not(z3.Or(penv._undefined)))
+    for k in exclude_regions:
+        if k in penv.regions: s.add(z3.Not(z3.Or(penv.regions[k])))
+    if s.check() != z3.sat:
+        return dict(verdict='unknown', detail='assumptions not satisfiable', sql=sql, time_s=time.time() - t0)
+    diffs = []
+    for r in table_rows:
+        dl = z3.Or(deleted[id(r)]) if deleted[id(r)] else FALSE
+        sl = z3.Or(selected[id(r)]) if selected[id(r)] else FALSE
+        diffs.append(z3.And(r.present, dl != sl))
+    s.add(z3.Or(diffs))
+    r = s.check()
+    out = dict(sql=sql, time_s=time.time() - t0)
+    if r == z3.unsat: out['verdict'] = 'unsat'
+    elif r == z3.sat:
+        m = s.model()
+        out['verdict'] = 'sat'
+        pk = info.pk
+        out['model'] = {'tables': symdb.concrete_rows(S, m),
+                        'scope': {n: (tuple(symdb.model_value(m, x) for x in v.items) if isinstance(v, pysem.PyTuple) else symdb.model_value(m, v)) for n, v in scope_syms.items()},
+                        'entity': ent, 'table': info.table, 'pk': pk,
+                        'deleted_by_sql': sorted(symdb.model_value(m, r_.cols[pk]) for r_ in table_rows if symdb.mtrue(m, r_.present) and deleted[id(r_)] and symdb.mtrue(m, z3.Or(deleted[id(r_)]))),
+                        'selected_by_python': sorted(symdb.model_value(m, r_.cols[pk]) for r_ in table_rows if symdb.mtrue(m, r_.present) and selected[id(r_)] and symdb.mtrue(m, z3.Or(selected[id(r_)])))}
+    else:
+        out['verdict'] = 'unknown'; out['detail'] = 'solver: %s' % r
+    out['time_s'] = time.time() - t0
+    return out
+
+
+def run_real_delete(db, prog, model):
+    """real bulk delete on the real database -> sorted primary keys that were removed"""
+    from pony.orm import db_session
+    populate(db, model['tables'])
+    p2 = Program(prog.src, {k: (prog.scope[k][0], model['scope'].get(k, prog.scope[k][1])) for k in prog.scope}, prog.form)
+    with db_session:
+        def keys():
+            con = db.get_connection()
+            return set(r[0] for r in con.execute('select "%s" from "%s"' % (model['pk'], model['table'])).fetchall())
+        before = keys()
+        build_query(db, p2).delete(bulk=True)
+        after = keys()
+    return sorted(before - after)
